@@ -335,6 +335,8 @@ func (x *Exec) execBlock(st *State, b *ssa.BasicBlock, from *ssa.BasicBlock) {
 
 func (x *Exec) doReturn(st *State, r *ssa.Return) {
 	x.retReached++
+	st.trace = append(st.trace, -1)
+	x.pathEnd(st, "return")
 	if x.ctr == nil {
 		return
 	}
@@ -355,9 +357,6 @@ func (x *Exec) doReturn(st *State, r *ssa.Return) {
 			label = fmt.Sprint(k)
 		}
 		x.oblige(st, "ensures", label, t, r.Pos(), c.Expr)
-	}
-	if x.falsePost {
-		x.oblige(st, "ensures", "!false", tFalse, r.Pos(), "vacuity probe: must fail")
 	}
 }
 
@@ -416,6 +415,8 @@ func (x *Exec) loopEntry(st *State, li *LoopInfo) {
 }
 
 func (x *Exec) loopBackEdge(st *State, li *LoopInfo) {
+	st.trace = append(st.trace, li.Header.Index, -2)
+	x.pathEnd(st, "back edge")
 	x.evalInvariants(st, li, "inv-step")
 	if li.Spec != nil {
 		for k, c := range li.Spec.Decreases {
@@ -585,6 +586,8 @@ func (x *Exec) havocLoop(st *State, li *LoopInfo) {
 			x.havocLvalue(st, m, x.newEnv(st))
 		}
 	}
+	// iterations may allocate: everything havocked may be newer than the current top
+	x.bumpTop(st)
 	var cells []int
 	for c := range cellSet {
 		cells = append(cells, c)
@@ -627,6 +630,18 @@ func (x *Exec) havocLoop(st *State, li *LoopInfo) {
 	}
 	// values computed inside the loop body in a previous iteration are not visible anyway (SSA regs
 	// are redefined before use), nothing to do for regs.
+}
+
+// bumpTop introduces a new allocation top >= the current one (somebody else may have allocated).
+func (x *Exec) bumpTop(st *State) {
+	nt := x.fresh(st, "top", sInt)
+	st.assume(mkCmp(">=", nt, st.top))
+	st.top = nt
+}
+
+// pathEnd records a feasibility (cover) query for a finished path.
+func (x *Exec) pathEnd(st *State, why string) {
+	x.obls = append(x.obls, &Obligation{Name: x.funcName() + "#cover[path]", Func: x.funcName(), Kind: "pathcover", PC: st.pc, Goal: tFalse, Assume: true, Trace: append([]int(nil), st.trace...), Note: why})
 }
 
 func (x *Exec) ctrEvents() []*Event {
